@@ -50,7 +50,7 @@ inductive Label where
   | startBegin | startCas | startLoadDone | startStoreRun | startSpawn
   | stopBegin | stopLoadRun | stopCancel (g : Nat)
   | parentCancel
-  | goBegin | goReturnCtx | goReturnOwn | goDecide
+  | goBegin | goReturnCtx | goReturnOwn | goReturnOwnCtx | goDecide
   | goReset | goSetDone | goCloseDone
   | goCloseStop (g : Nat)
 deriving Repr, DecidableEq
@@ -105,6 +105,13 @@ def exec (s : St) : Label → Option St
   | .goReturnOwn =>
     match s.go with
     | some (g, .running) => some { s with go := some (g, .returned true), active := s.active - 1,
+                                          ownReturned := true }
+    | _ => none
+  | .goReturnOwnCtx =>
+    -- an error of its own that is context-typed (e.g. an internal timeout): indistinguishable from
+    -- honouring a cancellation once the generation has been cancelled
+    match s.go with
+    | some (g, .running) => some { s with go := some (g, .returned false), active := s.active - 1,
                                           ownReturned := true }
     | _ => none
   | .goDecide =>
